@@ -113,41 +113,35 @@ def unit_sum_species(twin=False):
         sp = vec_elem(ex, s, "s_x", tm.sym("iter_i", "I"))
         ty = fld0(ex, s, "type", "I", sp); m = fld0(ex, s, "moles", "R", sp)
         sorbed = tm.or_(tm.eq(ty, tm.num(EX, "I")), tm.eq(ty, tm.num(SURF, "I")))
-        hy = list(s.pc)
-        if B.z3_prove(hy, sorbed)[0] == "proved":
-            nskip += 1
-            ok = all(not writes(s, key) for key in s.heap)
-            r.add("species.exchange_and_surface_species_add_nothing", DISCHARGED if ok else FAILED, "symex", 0, "", kind="frame")
-            continue
-        if B.z3_prove(hy, tm.not_(sorbed))[0] != "proved":
-            r.add("species.case_decided", UNDECIDED, "z3", 0, "a path mixes sorbed and aqueous species: %r" % (s.pc,)); continue
-        nrun += 1
-        REACTION = A.enum_values_compiled("global_structures.h", ["REACTION"])["REACTION"] if False else hdr.define_value(GS, "REACTION")
-        sp_ev = [e.result for e in s.events if e.name.endswith("Get_surface_ptr")]
-        db_ev = [e.result for e in s.events if e.name.endswith("Get_debye_lengths")]
-        if sp_ev and db_ev:
-            C = tm.and_(tm.not_(tm.eq(sp_ev[0], tm.num(0, "P"))), tm.lt(tm.num(0), db_ev[0]), tm.le(tm.num(REACTION, "I"), fld0(ex, s, "state", "I")), tm.eq(ty, tm.num(H2O, "I")))
-            if B.z3_prove(hy, C)[0] == "proved":
-                corr = True
-            elif B.z3_prove(hy, tm.not_(C))[0] == "proved":
-                corr = False
+        for hy, is_sorbed in cases(list(s.pc), sorbed):
+            if is_sorbed:
+                nskip += 1
+                ok = all(not writes(s, key) for key in s.heap)
+                r.add("species.exchange_and_surface_species_add_nothing", DISCHARGED if ok else FAILED, "symex", 0, "", kind="frame")
+                continue
+            nrun += 1
+            REACTION = hdr.define_value(GS, "REACTION")
+            sp_ev = [e.result for e in s.events if e.name.endswith("Get_surface_ptr")]
+            db_ev = [e.result for e in s.events if e.name.endswith("Get_debye_lengths")]
+            if sp_ev and db_ev:
+                C = tm.and_(tm.not_(tm.eq(sp_ev[0], tm.num(0, "P"))), tm.lt(tm.num(0), db_ev[0]), tm.le(tm.num(REACTION, "I"), fld0(ex, s, "state", "I")), tm.eq(ty, tm.num(H2O, "I")))
+                sub = cases(hy, C)
             else:
-                r.add("species.surface_water_case_decided", UNDECIDED, "z3", 0, "path does not decide: %r" % (s.pc,)); continue
-        else:
-            corr = False
-        for field, coef in sums:
-            w = writes(s, ("f", field, "R"))
-            if not w:
-                r.add("species.%s_updated" % field, FAILED, "symex", 0, "not written on an aqueous-species path"); continue
-            old = fld0(ex, s, field, "R")
-            add = fld0(ex, s, coef, "R", sp) * m
-            if twin and field == "cb_x":
-                add = m
-            if field in ("total_h_x", "total_o_x") and corr:
-                # diffuse-layer water with Debye lengths: water held by the surfaces is taken out (H2O species only)
-                msw = fld0(ex, s, "mass_water_surfaces_x", "R"); gw = fld0(ex, s, "gfw_water", "R")
-                add = add - (tm.num(2) if field == "total_h_x" else tm.num(1)) * msw / gw
-            U.discharge_eq_real(r, "species.%s+=%s*moles" % (field, coef), hy, w[-1][1], old + add)
+                sub = [(hy, False)]
+            for hy2, corr in sub:
+                for field, coef in sums:
+                    w = writes(s, ("f", field, "R"))
+                    if not w:
+                        r.add("species.%s_updated" % field, FAILED, "symex", 0, "not written on an aqueous-species path"); continue
+                    old = fld0(ex, s, field, "R")
+                    add = fld0(ex, s, coef, "R", sp) * m
+                    if twin and field == "cb_x":
+                        add = m
+                    if field in ("total_h_x", "total_o_x") and corr:
+                        # diffuse-layer water with Debye lengths: water held by the surfaces is taken out (H2O species only)
+                        msw = fld0(ex, s, "mass_water_surfaces_x", "R"); gw = fld0(ex, s, "gfw_water", "R")
+                        add = add - (tm.num(2) if field == "total_h_x" else tm.num(1)) * msw / gw
+                    U.discharge_eq_real(r, "species.%s+=%s*moles" % (field, coef), hy2, w[-1][1], old + add)
         w = writes(s, ("f", "total_ions_x", "R"))
     for field, coef in sums:
         check_accumulator_init(r, fn, MODEL, loop_node(fn, k), field, "species")
